@@ -293,6 +293,9 @@ def build():
                note="with index-based source serialization exactly {'idx': the source's registry index} computed at this call; otherwise the ordinary payload for the options / dialect "
                     "of the call in progress; no state is read or written besides the option slot and the source registry"))
     sf["mget_src"] = lambda mp, k: VOpt(z3.Select(mp.term, mp.sort.key.coerce(k).term), mp.sort.opt)
+    world.trusted_notes.append('sorted(d.items(), key=itemgetter(0)) iterates the items in the order sorted_keys(keys(d)), an uninterpreted duplicate-free list of the same keys (ascending order checked natively by rt.c16)')
+    world.trusted_notes.append("out.update(d) with no key of d present in out (obligation) appends d's keys in d's order; keys_are_exactly (dict key set == key list) through quantified lemmas")
+    world.trusted_notes.append("mashumaro's to_dict / from_dict are uninterpreted functions of (object or class, payload, dialect) that may raise")
     return world, lib, reg, lemmas(lib, dict(nodup=nodup, SS=SS, DM=DM, OPV=OPV, dom_is=dom_is, present=present))
 
 
